@@ -268,6 +268,16 @@ def t_matching(eng):
     try:
         # one end per run, each against an arbitrary dictionary (the state the other end leaves behind is one of them)
         which = eng.choose(2)
+        # whatever the function computes before the loop over the ends (nothing at the pinned commit; a hoisted tolerance in a
+        # rewritten one) is executed first, so that the loop body finds its names
+        pre = []
+        for st in f.body:
+            if st is outer:
+                break
+            if not (isinstance(st, ast.Expr) and isinstance(st.value, ast.Constant)):
+                pre.append(st)
+        if pre:
+            eng.exec_block(pre, env)
         for n1, pt in (((0, p1), (1, p2))[which],):
             cur['pt'] = tuple(pt.data)
             cur['n1'] = n1
